@@ -35,7 +35,7 @@ TEMPLATES = {
     "ns": "{% set ns = namespace(c=0) %}{% for i in items %}{% set ns.c = ns.c + i %}{% endfor %}{{ ns.c }}",
     "loopstate": "{% for i in items %}{{ loop.changed(i % 2) }}{{ loop.cycle('a', 'b') }}{{ loop.revindex }}{% endfor %}",
     "cycler": "{% set c = cycler('a', 'b') %}{{ c.next() }}{{ c.next() }}{{ c.current }}{% set j = joiner(',') %}{{ j() }}{{ j() }}x",
-    "filters": "{{ items|sort(reverse=true)|join(',') }}{{ items|map('string')|list|length }}{{ d|dictsort }}{{ items|sum(start=0) }}{{ objs|map(attribute='v')|list }}{{ items|reverse|first }}{{ nested|first|first }}{{ objs|groupby('v')|list|length }}{{ objs|list|length }}{{ objs|unique(attribute='v')|list|length }}{{ items|select('odd')|list }}{{ items|batch(2)|list }}{{ nested|sum(start=[]) }}",
+    "filters": "{{ items|sort(reverse=true)|join(',') }}{{ items|map('string')|list|length }}{{ d|dictsort }}{{ items|sum(start=0) }}{{ objs|map(attribute='v')|list }}{{ items|reverse|first }}{{ nested|first|first }}{{ objs|groupby('v')|list|length }}{{ objs|list|length }}{{ objs|unique(attribute='v')|list|length }}{{ items|select('odd')|list }}{{ items|batch(2)|list }}{{ nested|sum(start=[]) }}{{ items|join(',') }}{{ items|join }}{{ objs|join('/', attribute='v') }}{{ nested|join('-') }}{{ items|indent }}",
     "child": "{% extends 'base' %}{% block a %}ca{{ x }}{{ super() }}{% endblock %}",
     "macro": "{% macro m(a, b=items) %}({{ a }}{{ b|length }}{{ varargs }}{{ kwargs|dictsort }}){% endmacro %}{{ m(1) }}{{ m(2, 3, 4, k=x) }}",
     "tojson_indent": "{{ d|tojson(indent=2) }}|{{ items|tojson(2) }}",
@@ -166,24 +166,46 @@ def in_fork(fn):
     return val
 
 
+def isolated_renders(async_):
+    """every pool template rendered alone, each in its own forked child of a process that has rendered nothing"""
+    warm_bytecode(async_)
+    return {n: in_fork(lambda n=n: render(make_env(async_, memo=True), n, make_data(), async_)) for n in POOL}
+
+
+def warm_bytecode(async_):
+    # compile every template once in this process; forked children then load the code objects from _BC
+    env = make_env(async_, memo=True)
+    for n in TEMPLATES:
+        try:
+            env.get_template(n)
+        except Exception:  # noqa: BLE001
+            pass
+
+
 def seq_shard(arg):
-    first, depth, async_ = arg
+    import time as _t
+    _t0 = _t.time()
+    first, depth, async_, iso = arg
     p = core.Part()
-    iso = {n: in_fork(lambda n=n: render(make_env(async_), n, make_data(), async_)) for n in POOL}
+    warm_bytecode(async_)
+    p.counters["cpu_wall_seq_s"] = 0
     for rest in itertools.chain.from_iterable(itertools.product(POOL, repeat=k) for k in range(0, depth)):
         order = (first,) + rest
-        part = in_fork(lambda order=order: run_order(order, async_, iso))
+        # (this shard runs in a worker forked from the pristine parent for this shard only; a render that pollutes
+        # process-global state is caught by the snapshot comparison of the very order in which it happens)
+        part = run_order(order, async_, iso)
         p.evals += 1
         p.viol.extend(part.viol)
         p.sigs |= part.sigs
     p.sample({"kind": "render order", "first": first, "depth": depth, "async": async_}, cap=1)
+    p.counters["cpu_wall_seq_s"] = round(_t.time() - _t0, 2)
     return p
 
 
 def run_order(order, async_, iso):
     p = core.Part()
     if True:
-        env = make_env(async_)
+        env = make_env(async_, memo=True)
         data = make_data()
         before = snapshot(env, data, ())
         for i, n in enumerate(order):
@@ -256,6 +278,8 @@ def want_shared():
 
 
 def conc_shard(arg):
+    import time as _t
+    _t0 = _t.time()
     names, mode, bound, cap = arg
     core.import_all_jinja()
     install_locks()
@@ -273,7 +297,8 @@ def conc_shard(arg):
         env = make_env(memo=mode.startswith("warm"))
         data = make_data()
         if mode.startswith("warm"):
-            for n in POOL:
+            # warm = the harness templates (and what they import/extend) are loaded and were rendered once
+            for n in dict.fromkeys(names):
                 render(env, n, data, False)
         before = copy.deepcopy(data)
         shared["data"], shared["before"] = data, before
@@ -316,6 +341,7 @@ def conc_shard(arg):
     for o in outcomes:
         p.sig(("conc", names, mode, o))
     p.sample({"kind": "concurrent renders", "threads": list(names), "mode": mode, "preemption_bound": bound, "schedules": n}, cap=1)
+    p.counters["cpu_wall_conc_%s_s" % mode] = round(_t.time() - _t0, 2)
     return p
 
 
@@ -353,7 +379,8 @@ def run(ctx: core.Ctx):
         "functools.lru_cache (get_spontaneous_environment) is atomic under the GIL and is one step",
     ]
     depth = 2 if ctx.quick else 3
-    ctx.pmap(seq_shard, [(f, depth, a) for f in POOL for a in (False, True, "ae")])
+    isos = {a: isolated_renders(a) for a in (False, True, "ae")}
+    ctx.pmap(seq_shard, [(f, depth, a, isos[a]) for f in POOL for a in (False, True, "ae")], fresh=True)
     pairs = list(itertools.combinations_with_replacement(POOL, 2))
     plan = []
     if ctx.quick:
@@ -371,7 +398,7 @@ def run(ctx: core.Ctx):
         plan += [(pr, "cold-shared", 2, 20000) for pr in [("imp", "imp"), ("imp", "fromctx"), ("child", "child"), ("imp", "child")]]
         plan += [(tr, "warm-shared", 1, 20000) for tr in [("imp", "fromctx", "child"), ("imp", "imp", "imp"), ("ns", "loopstate", "filters")]]
         plan += [(tr, "cold-shared", 1, 20000) for tr in [("imp", "fromctx", "child"), ("imp", "imp", "imp")]]
-    ctx.pmap(conc_shard, plan)
+    ctx.pmap(conc_shard, plan, pin=True)
     if ctx.counters.get("schedule_caps_hit"):
         ctx.cap_hit(f"{ctx.counters['schedule_caps_hit']} harnesses stopped at their per-harness schedule cap")
     ctx.cov["states"] = ctx.counters.get("harnesses", 0)
